@@ -1,10 +1,200 @@
-/- Line-protocol handlers for C02 (placeholder until the property is built). -/
-import PandoraModel.Model.Basic
+/- Line-protocol handlers for the matching-cost model and specification (C02; reused by C09). -/
+import PandoraModel.Model.MatchingCost
 
 namespace Pandora.Driver.C02
 open Lean (Json)
+open Pandora Pandora.MC
 
-def handle (op : String) (_j : Json) : Except String Json :=
-  throw s!"unknown op {op}"
+/-- nested JSON arrays -> total index function (default outside the array) -/
+def fn2 {α} (g : Array (Array α)) (d : α) : Int → Int → α :=
+  fun r c =>
+    if r < 0 ∨ c < 0 then d
+    else match g[r.toNat]? with
+      | some row => (row[c.toNat]?).getD d
+      | none => d
+
+def arr2OfJson {α} (f : Json → Except String α) (j : Json) : Except String (Array (Array α)) := do
+  let rows ← listOfJson (listOfJson f) j
+  return (rows.map List.toArray).toArray
+
+def maskOfJson (j : Json) (valid nodata : Int) : Except String Mask :=
+  match j with
+  | Json.null => .ok { present := false, code := fun _ _ => valid, valid := valid, nodata := nodata }
+  | _ => do
+    let g ← arr2OfJson intOfJson j
+    return { present := true, code := fn2 g valid, valid := valid, nodata := nodata }
+
+/-- `{"meas","w","sp","rows","cols","L":[band][row][col],"R":…,"band_index","mL":null|[[…]],"mR":…,
+     "valid","nodata","dmin":[[…]],"dmax":[[…]]}`; `swap = true` exchanges the two images (right cost volume) -/
+def inputOfJson (j : Json) : Except String Input := do
+  let measS ← field j "meas" >>= strOfJson
+  let meas ← match Measure.ofString? measS with
+    | some m => pure m
+    | none => throw s!"unknown measure {measS}"
+  let w ← field j "w" >>= natOfJson
+  let sp ← field j "sp" >>= natOfJson
+  let rows ← field j "rows" >>= natOfJson
+  let cols ← field j "cols" >>= natOfJson
+  let bi ← natOfJson (fieldD j "band_index" (natToJson 0))
+  let bandsL ← field j "L" >>= listOfJson (arr2OfJson ratOfJson)
+  let bandsR ← field j "R" >>= listOfJson (arr2OfJson ratOfJson)
+  let gL ← match bandsL[bi]? with | some g => pure g | none => throw "band_index out of range (L)"
+  let gR ← match bandsR[bi]? with | some g => pure g | none => throw "band_index out of range (R)"
+  let valid ← intOfJson (fieldD j "valid" (intToJson 0))
+  let nodata ← intOfJson (fieldD j "nodata" (intToJson 1))
+  let mL ← maskOfJson (fieldD j "mL" Json.null) valid nodata
+  let mR ← maskOfJson (fieldD j "mR" Json.null) valid nodata
+  let dmin ← field j "dmin" >>= arr2OfJson intOfJson
+  let dmax ← field j "dmax" >>= arr2OfJson intOfJson
+  return {
+    meas, w, sp,
+    L := { rows, cols, px := fn2 gL 0 },
+    R := { rows, cols, px := fn2 gR 0 },
+    mL, mR,
+    dminG := fn2 dmin 0, dmaxG := fn2 dmax 0 }
+
+def cellToJson : Cell → Json
+  | .nan => Json.str "nan"
+  | .num q => ratToJson q
+  | .zn cov vv => Json.arr #[Json.str "zn", ratToJson cov, ratToJson vv]
+
+/-- `a·√vv ≤ cov`, decided exactly in the rationals (`vv > 0`) -/
+def sqrtLe (a cov vv : Rat) : Bool :=
+  if a ≤ 0 then (decide (cov ≥ 0) || decide (cov * cov ≤ a * a * vv))
+  else (decide (cov ≥ 0) && decide (cov * cov ≥ a * a * vv))
+
+/-- `cov ≤ b·√vv` -/
+def leSqrt (b cov vv : Rat) : Bool :=
+  if b ≥ 0 then (decide (cov ≤ 0) || decide (cov * cov ≤ b * b * vv))
+  else (decide (cov ≤ 0) && decide (cov * cov ≥ b * b * vv))
+
+/-- does an observed float cell (exact rational or NaN) agree with an expected cell?  Exact for numbers;
+    for the symbolic zncc quotient `cov/√vv` within the absolute tolerance `tol` (decided without taking the root) -/
+def agrees (expected : Cell) (got : Val) (tol : Rat) : Bool :=
+  match expected, got with
+  | .nan, .nan => true
+  | .num q, .num v => decide (q = v)
+  | .zn cov vv, .num v => sqrtLe (v - tol) cov vv && leSqrt (v + tol) cov vv
+  | _, _ => false
+
+def causeIndex : Cause → Nat
+  | .computable => 0 | .windowLeft => 1 | .windowRight => 2 | .nodataLeft => 3 | .nodataRight => 4
+  | .maskedLeft => 5 | .maskedRight => 6 | .outsideInterval => 7
+
+def allCauses : List Cause :=
+  [.computable, .windowLeft, .windowRight, .nodataLeft, .nodataRight, .maskedLeft, .maskedRight, .outsideInterval]
+
+structure Dims where
+  gmin : Int
+  gmax : Int
+  nd : Nat
+
+def dims (x : Input) : Dims :=
+  let gmin := gridMin x.dminG x.L.rows x.L.cols
+  let gmax := gridMax x.dmaxG x.L.rows x.L.cols
+  { gmin, gmax, nd := nDisp gmin gmax x.sp }
+
+def tab3 (rows cols nd : Nat) (f : Nat → Nat → Nat → Json) : Json :=
+  Json.arr ((List.range rows).map (fun (r : Nat) =>
+    Json.arr ((List.range cols).map (fun (c : Nat) =>
+      Json.arr ((List.range nd).map (fun (j : Nat) => f r c j)).toArray)).toArray)).toArray
+
+def volumeToJson (x : Input) (nd : Nat) (v : Volume) : Json :=
+  tab3 x.L.rows x.L.cols nd (fun r c j => cellToJson (v r c j))
+
+def header (x : Input) (d : Dims) : List (String × Json) :=
+  [("wf", Json.bool (wf x)), ("gmin", intToJson d.gmin), ("gmax", intToJson d.gmax), ("nd", natToJson d.nd),
+   ("disp_num", listToJson intToJson (dispRange d.gmin d.gmax x.sp)),
+   ("type_measure", Json.str (typeMeasure x.meas)), ("cmax", intToJson (cmax false x)), ("cmax_up", intToJson (cmax true x))]
+
+/-- full volumes (debugging, replay) -/
+def volumes (j : Json) : Except String Json := do
+  let x ← inputOfJson j
+  let d := dims x
+  let causeVol := tab3 x.L.rows x.L.cols d.nd (fun r c jj =>
+    natToJson (causeIndex (cause x r c (d.gmin * (x.sp : Int) + (jj : Int)))))
+  return mkObj (header x d ++ [
+    ("model", volumeToJson x d.nd (costVolume x)),
+    ("spec", volumeToJson x d.nd (specVolume x)),
+    ("cause", causeVol)])
+
+/-- compare an observed volume `impl[r][c][j]` with the model and with the specification.
+    Returns counts and the first few differing cells; also the cause histogram of the cells. -/
+def judge (j : Json) : Except String Json := do
+  let x ← inputOfJson j
+  let d := dims x
+  let tol ← ratOfJson (fieldD j "tol" (Json.str "1/100000"))
+  let impl ← field j "impl" >>= listOfJson (listOfJson (listOfJson valOfJson))
+  let implA : Array (Array (Array Val)) := (impl.map (fun rw => (rw.map List.toArray).toArray)).toArray
+  let implCmax ← match fieldD j "impl_cmax" Json.null with
+    | Json.null => pure (none : Option Rat)
+    | v => (ratOfJson v).map some
+  let withModel ← boolOfJson (fieldD j "with_model" (Json.bool true))
+  let model := costVolume x
+  let spec := specVolume x
+  let mut hist : Array Nat := Array.replicate 8 0
+  let mut badModel : Array Json := #[]
+  let mut badSpec : Array Json := #[]
+  let mut nBadModel := 0
+  let mut nBadSpec := 0
+  let mut nAboveCmax := 0
+  let mut firstAbove : Json := Json.null
+  let mut shapeOk := implA.size == x.L.rows
+  let mut nTinyBad := 0
+  for r in List.range x.L.rows do
+    let rowA := implA[r]?.getD #[]
+    if rowA.size != x.L.cols then shapeOk := false
+    for c in List.range x.L.cols do
+      let cellA := rowA[c]?.getD #[]
+      if cellA.size != d.nd then shapeOk := false
+      for jj in List.range d.nd do
+        let got := cellA[jj]?.getD Val.nan
+        let k := d.gmin * (x.sp : Int) + jj
+        let cs := cause x r c k
+        hist := hist.modify (causeIndex cs) (· + 1)
+        let s := spec r c jj
+        if !agrees s got tol then
+          nBadSpec := nBadSpec + 1
+          if badSpec.size < 5 then
+            badSpec := badSpec.push (mkObj [("r", natToJson r), ("c", natToJson c), ("j", natToJson jj),
+              ("k", intToJson k), ("cause", Json.str cs.name), ("expected", cellToJson s), ("got", valToJson got)])
+        if withModel then
+          let m := model r c jj
+          if !agrees m got tol then
+            nBadModel := nBadModel + 1
+            if badModel.size < 5 then
+              badModel := badModel.push (mkObj [("r", natToJson r), ("c", natToJson c), ("j", natToJson jj),
+                ("k", intToJson k), ("model", cellToJson m), ("got", valToJson got)])
+        match implCmax, got with
+        | some cm, .num v =>
+          let above := if x.meas == .zncc then decide (v > cm + tol) || decide (v < -cm - tol) else decide (v > cm)
+          if above then
+            nAboveCmax := nAboveCmax + 1
+            if firstAbove == Json.null then
+              firstAbove := mkObj [("r", natToJson r), ("c", natToJson c), ("j", natToJson jj), ("got", valToJson got)]
+        | _, _ => pure ()
+  -- hypothesis of the zncc theorem, per disparity
+  if x.meas == .zncc then
+    for k in dispRange d.gmin d.gmax x.sp do
+      if !noTinyVariance x k then nTinyBad := nTinyBad + 1
+  return mkObj (header x d ++ [
+    ("shape_ok", Json.bool shapeOk),
+    ("cause_hist", mkObj (allCauses.map (fun cs => (cs.name, natToJson (hist[causeIndex cs]?.getD 0))))),
+    ("n_bad_model", natToJson nBadModel), ("bad_model", Json.arr badModel),
+    ("n_bad_spec", natToJson nBadSpec), ("bad_spec", Json.arr badSpec),
+    ("n_above_cmax", natToJson nAboveCmax), ("first_above_cmax", firstAbove),
+    ("tiny_variance_planes", natToJson nTinyBad)])
+
+/-- `popcount32b` on a list of arguments together with the bit count it must equal -/
+def popcounts (j : Json) : Except String Json := do
+  let xs ← field j "xs" >>= listOfJson natOfJson
+  return listToJson natToJson (xs.map popcount32b)
+
+def handle (op : String) (j : Json) : Except String Json :=
+  match op with
+  | "C02.volumes" => volumes j
+  | "C02.judge" => judge j
+  | "C02.popcount" => popcounts j
+  | _ => throw s!"unknown op {op}"
 
 end Pandora.Driver.C02
